@@ -1,7 +1,7 @@
 (* TrRenPos2.v -- the FAST PATH of ren_position (ren.c) is RenDefs.ren_fast; with it the theorems of TrRen2.v
    that are relative to a call of ren_position become unconditional for lines that are not reordered
    (ren_off, ren_pos, ren_next, ren_cursor).  Continues TrRenPos.v (uc_chop, ren_placeholder, ren_cwid). *)
-From Coq Require Import List ZArith NArith Bool Lia.
+From Coq Require Import List ZArith NArith Bool Lia Permutation.
 From NV Require Import Bytes UcDefs GenUcTables GenConf GenConsts RenDefs RenProps CLite CLiteProps GenCFuncs CLiteTac TrUc TrUcTab TrRen TrRen2 TrRenPos.
 Import ListNotations.
 Local Open Scope Z_scope.
@@ -162,4 +162,140 @@ Proof.
   destruct (xorder o =? 1) eqn:E3; cbn [andb] in Hfast; xcbn; [|exact Hgo].
   pose proof (builtin_strlen m b s 0 Hs Hnn ltac:(lia)) as E. change (Z.of_nat 0) with 0 in E. rewrite E; clear E. xcbn.
   rewrite wrap_U64_id by lia. rewrite Nat.sub_0_r. rewrite Hfast. xcbn. exact Hgo.
+Qed.
+
+(* ------------------------------------------------------------------ the functions built on the array, unconditionally *)
+Lemma ren_position_is_fast dr o s : use_reorder o s = false -> RenDefs.ren_position dr o s = ren_fast (uc_slen s) s 0.
+Proof. intro H. unfold RenDefs.ren_position. rewrite H. reflexivity. Qed.
+Lemma ren_fast_bound n : forall t c, 0 <= c -> Forall (fun x => c <= x <= c + 8 * Z.of_nat n) (ren_fast n t c).
+Proof.
+  induction n as [|n IH]; intros t c Hc; cbn [ren_fast].
+  - constructor; [cbn beta; lia|constructor].
+  - pose proof (ren_cwid_range t c Hc) as Hw. constructor; [cbn beta; lia|].
+    eapply Forall_impl; [|apply IH; lia]. cbn beta. intros x Hx. lia.
+Qed.
+Lemma fast_cols_ok o s : fast_line o s -> let l := ren_fast (uc_slen s) s 0 in
+  ints_ok l /\ next_ok l false /\ prev_ok l false /\ (uc_slen s < length l)%nat.
+Proof.
+  intros [_ [_ [Hmax _]]] l. pose proof (uc_slen_le s) as Hn. pose proof (ren_fast_bound (uc_slen s) s 0 ltac:(lia)) as B. fold l in B.
+  unfold ints_ok, next_ok, prev_ok.
+  split; [eapply Forall_impl; [|exact B]; cbn beta; intros; lia|].
+  split; [eapply Forall_impl; [|exact B]; cbn beta; intros; lia|].
+  split; [eapply Forall_impl; [|exact B]; cbn beta; intros; lia|].
+  unfold l. rewrite ren_fast_length. lia.
+Qed.
+Lemma lit0_ro M : ro_at M -> nth_error M G_lit__0 = Some gb_lit__0.
+Proof. intro H. rewrite (H G_lit__0 eq_refl). reflexivity. Qed.
+
+(* pos_call of TrRen2.v holds for every memory / line that takes the fast path *)
+Lemma pos_call_fast o m b s d fuel : fast_mem o m b s -> fast_line o s ->
+  (length s < fuel)%nat -> (nph < fuel)%nat -> (fuel_tabs <= fuel)%nat ->
+  exists m1, pos_call fuel (S (S (S (S (S (S d)))))) m b s (ren_fast (uc_slen s) s 0) (length m) m1 /\ ren_frame m m1.
+Proof.
+  intros Hm Hl Hf HF1 HF2. destruct (tr_ren_position_fast o m b s d fuel Hm Hl Hf HF1 HF2) as [m1 [X [A Hfr]]].
+  exists m1. split; [|exact Hfr]. destruct Hm as [Hro [Hbits [Hs _]]].
+  assert (Lb : (b < length m)%nat) by (apply nth_error_Some; unfold str_at in Hs; congruence).
+  unfold pos_call. repeat split.
+  - exact X.
+  - exact A.
+  - apply (ren_frame_str m); assumption.
+  - lia.
+  - apply lit0_ro. apply (ren_frame_ro m); assumption.
+  - pose proof (ro_lt m G_lit__0 Hro eq_refl). lia.
+Qed.
+
+Section Fast.
+  Variables (dr : bytes -> list nat -> list nat) (o : ropts).
+
+  Theorem tr_ren_off_fast m b s p d fuel : fast_mem o m b s -> fast_line o s ->
+    (length s < fuel)%nat -> (nph < fuel)%nat -> (fuel_tabs <= fuel)%nat ->
+    exists M, callf cprog fuel (S (S (S (S (S (S (S d))))))) F_ren_off [VPtr b 0; VInt p] m
+              = Ok (VInt (Z.of_nat (RenDefs.ren_off dr o s p)), M) /\ ren_frame m M.
+  Proof.
+    intros Hm Hl Hf HF1 HF2. destruct (pos_call_fast o m b s d fuel Hm Hl Hf HF1 HF2) as [m1 [[P [A [S1 _]]] Hfr]].
+    destruct (fast_cols_ok o s Hl) as [Hok [_ [_ Hlen]]].
+    pose proof Hl as [Hnn [_ [Hmax [_ [_ Hfast]]]]]. destruct Hm as [_ [Hbits [Hs _]]].
+    exists (upd m1 (length m) []). split.
+    - rewrite (tr_ren_off_rel m m1 b s (length m) _ p (S (S (S (S d)))) fuel Hs Hnn Hf ltac:(lia) P A Hok Hlen).
+      unfold RenDefs.ren_off. rewrite (ren_position_is_fast dr o s Hfast). reflexivity.
+    - apply ren_frame_upd_new; try assumption; [lia|apply (lt_length_of_arr _ _ _ A)].
+  Qed.
+
+  Theorem tr_ren_pos_fast m b s off d fuel : fast_mem o m b s -> fast_line o s -> 0 <= off ->
+    (length s < fuel)%nat -> (nph < fuel)%nat -> (fuel_tabs <= fuel)%nat ->
+    exists M, callf cprog fuel (S (S (S (S (S (S (S d))))))) F_ren_pos [VPtr b 0; VInt off] m
+              = Ok (VInt (RenDefs.ren_pos dr o s off), M) /\ ren_frame m M.
+  Proof.
+    intros Hm Hl Hoff Hf HF1 HF2. destruct (pos_call_fast o m b s d fuel Hm Hl Hf HF1 HF2) as [m1 [[P [A [S1 _]]] Hfr]].
+    destruct (fast_cols_ok o s Hl) as [Hok [_ [_ Hlen]]].
+    pose proof Hl as [Hnn [_ [Hmax [_ [_ Hfast]]]]]. destruct Hm as [_ [Hbits [Hs _]]].
+    exists (upd m1 (length m) []). split.
+    - rewrite (tr_ren_pos_rel m m1 b s (length m) _ off (S (S (S (S d)))) fuel Hs Hnn Hf ltac:(lia) P A Hok Hlen Hoff).
+      rewrite <- (ren_position_is_fast dr o s Hfast). rewrite (ren_pos_model dr o s off Hoff). reflexivity.
+    - apply ren_frame_upd_new; try assumption; [lia|apply (lt_length_of_arr _ _ _ A)].
+  Qed.
+
+  Theorem tr_ren_next_fast m b s p dir d fuel : fast_mem o m b s -> fast_line o s ->
+    (length s < fuel)%nat -> (nph < fuel)%nat -> (fuel_tabs <= fuel)%nat ->
+    exists M, callf cprog fuel (S (S (S (S (S (S (S (S d)))))))) F_ren_next [VPtr b 0; VInt p; VInt dir] m
+              = Ok (VInt (RenDefs.ren_next dr o s p dir), M) /\ ren_frame m M.
+  Proof.
+    intros Hm Hl Hf HF1 HF2.
+    destruct (pos_call_fast o m b s (S d) fuel Hm Hl Hf HF1 HF2) as [m1 [P1 Hfr1]].
+    pose proof P1 as [_ [A1 _]].
+    pose proof Hm as [_ [Hbits [Hs _]]].
+    assert (Hfr1' : ren_frame m (upd m1 (length m) [])) by (apply ren_frame_upd_new; try assumption; [lia|apply (lt_length_of_arr _ _ _ A1)]).
+    pose proof (fast_mem_frame o m _ b s Hm Hfr1') as Hm1'.
+    destruct (pos_call_fast o (upd m1 (length m) []) b s d fuel Hm1' Hl Hf HF1 HF2) as [m3 [P2 Hfr3]].
+    pose proof P2 as [_ [A3 _]].
+    destruct (fast_cols_ok o s Hl) as [Hok [Hnx [Hpv Hlen]]].
+    pose proof Hl as [Hnn [_ [Hmax [_ [_ Hfast]]]]].
+    exists (upd m3 (length (upd m1 (length m) [])) []). split.
+    - rewrite (tr_ren_next_rel m m1 m3 b s (length m) _ _ p dir (S (S (S (S d)))) fuel Hs Hnn Hf ltac:(lia) P1 P2 Hok Hlen Hnx Hpv).
+      rewrite <- (ren_position_is_fast dr o s Hfast). rewrite ren_next_model. reflexivity.
+    - apply (ren_frame_trans m (upd m1 (length m) [])); [exact Hfr1'|].
+      destruct Hm1' as [_ [Hb1 _]]. apply ren_frame_upd_new; try assumption; [lia|apply (lt_length_of_arr _ _ _ A3)].
+  Qed.
+
+  Theorem tr_ren_cursor_fast m b s p d fuel : fast_mem o m b s -> fast_line o s ->
+    (length s < fuel)%nat -> (nph < fuel)%nat -> (fuel_tabs <= fuel)%nat ->
+    exists M, callf cprog fuel (S (S (S (S (S (S (S (S d)))))))) F_ren_cursor [VPtr b 0; VInt p] m
+              = Ok (VInt (RenDefs.ren_cursor dr o s p), M) /\ ren_frame m M.
+  Proof.
+    intros Hm Hl Hf HF1 HF2.
+    destruct (pos_call_fast o m b s (S d) fuel Hm Hl Hf HF1 HF2) as [m1 [P1 Hfr1]].
+    pose proof P1 as [_ [A1 _]].
+    pose proof Hm as [_ [Hbits [Hs _]]].
+    pose proof (fast_mem_frame o m _ b s Hm Hfr1) as Hm1.
+    destruct (pos_call_fast o m1 b s d fuel Hm1 Hl Hf HF1 HF2) as [m3 [P2 Hfr3]].
+    pose proof P2 as [_ [A3 _]].
+    destruct (fast_cols_ok o s Hl) as [Hok [Hnx [Hpv Hlen]]].
+    pose proof Hl as [Hnn [Hnt [Hmax [_ [_ Hfast]]]]].
+    pose proof (lt_length_of_arr _ _ _ A1) as L1. pose proof (lt_length_of_arr _ _ _ A3) as L3.
+    pose proof (bits_lt m Hbits) as LB.
+    assert (A3g : int_arr_at m3 (length m) (ren_fast (uc_slen s) s 0)).
+    { unfold int_arr_at. destruct Hfr3 as [_ [O _]]. rewrite O by lia. exact A1. }
+    exists (upd (upd m3 (length m1) []) (length m) []). split.
+    - rewrite (tr_ren_cursor_rel m m1 m3 b s (length m) (length m1) _ p (S (S (S (S d)))) fuel Hs Hnn Hf ltac:(lia)
+                 ltac:(intros q Hq; apply (no_trunc_step s q Hnt Hq)) P1 P2 A3g ltac:(lia) Hok Hlen Hnx Hpv).
+      rewrite <- (ren_position_is_fast dr o s Hfast). rewrite ren_cursor_model. reflexivity.
+    - pose proof (ren_frame_trans m m1 m3 Hfr1 Hfr3) as H13.
+      apply ren_frame_upd_new; try assumption; [|lia|rewrite upd_length; destruct H13; lia].
+      apply ren_frame_upd_new; try assumption. destruct Hfr1; lia.
+  Qed.
+End Fast.
+
+(* the round trip of C17_roundtrip on the C text: the column the translated ren_pos returns for character off, given
+   to the translated ren_off, comes back as off *)
+Theorem tr_roundtrip_fast o m b s off d fuel : fast_mem o m b s -> fast_line o s -> 0 <= off < Z.of_nat (uc_slen s) ->
+  (length s < fuel)%nat -> (nph < fuel)%nat -> (fuel_tabs <= fuel)%nat ->
+  exists v M1 M2,
+    callf cprog fuel (S (S (S (S (S (S (S d))))))) F_ren_pos [VPtr b 0; VInt off] m = Ok (VInt v, M1) /\
+    callf cprog fuel (S (S (S (S (S (S (S d))))))) F_ren_off [VPtr b 0; VInt v] M1 = Ok (VInt off, M2) /\ ren_frame m M2.
+Proof.
+  intros Hm Hl Hoff Hf HF1 HF2. set (dr := fun (_ : bytes) (ord : list nat) => ord).
+  destruct (tr_ren_pos_fast dr o m b s off d fuel Hm Hl ltac:(lia) Hf HF1 HF2) as [M1 [X1 F1]].
+  destruct (tr_ren_off_fast dr o M1 b s (RenDefs.ren_pos dr o s off) d fuel (fast_mem_frame o m M1 b s Hm F1) Hl Hf HF1 HF2) as [M2 [X2 F2]].
+  exists (RenDefs.ren_pos dr o s off), M1, M2. split; [exact X1|]. split; [|apply (ren_frame_trans m M1 M2); assumption].
+  rewrite X2. destruct (roundtrip dr o (fun s0 => Permutation_refl _) s) as [R _]. rewrite (R off Hoff). reflexivity.
 Qed.
